@@ -84,6 +84,9 @@ def check_case(case, res: Result, cli=False):
         # (the command-line front end knows one root directory only)
         extra_roots = [] if cli else [os.path.join(root, r) for r in case.get("roots", []) if os.path.isdir(os.path.join(root, r))]
         cb = CodeBase(root, *extra_roots, exclude_patterns=list(case["excludes"]))
+        listed = list(cb)
+        if len(listed) != len(set(listed)):
+            vs.append(make_violation("enumeration:file-yielded-twice", case, "each member once", sorted(os.path.relpath(p, root) for p in listed if listed.count(p) > 1)))
         members = [p for p in cb if not os.path.islink(p)]
         by = {}
         for p in members:
